@@ -1,6 +1,6 @@
 //go:build verif
 
-//verif:bounds whole-parser runs on a table of N fully symbolic payload bytes (quick 2, thorough 3) behind a valid header; templates with unconstrained holes: a Device with a dual-name path of 8 symbolic name bytes, a Field with a Connection buffer whose length prefix is symbolic
+//verif:bounds whole-parser runs on a table of N fully symbolic payload bytes (quick 2, thorough 3) behind a valid header; templates with unconstrained holes: a Device with a dual-name path of 8 symbolic name bytes, a Field with a Connection buffer whose length prefix is symbolic, a path-declared Name followed by a Scope directive with all eight name bytes symbolic, a Buffer whose size operand is a nested Buffer with both package-length bytes drawn from a menu of 20 values (0..17, 0x41, 0xff)
 //verif:assumes the table is a raw region of exactly header+payload bytes (any access outside it is a violation); error-message formatting (kfmt.Fprintf) is stubbed while encoding; exceeding the call-depth / instruction budget counts as non-termination
 //verif:override github.com/ProjectSerenity/firefly/kernel/kfmt.Fprintf vfNoFprintf
 package aml
@@ -114,5 +114,40 @@ func Verif_C12_tmpl_connection_buffer() {
 	h, p := vfTable(14)
 	copy(p, []byte{0x5b, 0x81, 0x0c, 'A', 'A', 'A', 'A', 0x00, 0x02, 0x11, 0x04, 0x0a})
 	// p[12] (declared buffer length) and p[13] stay symbolic
+	vfParse(h)
+}
+
+// Name(BUF0, Buffer(<pkglen L1>){ size = Buffer(<pkglen L2>){One, bytes...} }): nested buffers with every
+// combination of (possibly inconsistent) package-length bytes from a menu: 08 BUF0 11 <L1> 11 <L2> 01 00 00 00 00 00 00.
+// The lengths are enumerated (Choice) rather than symbolic: a symbolic package end makes every later stream
+// offset symbolic, which the memory model pays for with one case split per access.
+//verif:budget-is-violation
+//verif:depth 120
+func Verif_C12_tmpl_nested_buffer() {
+	h, p := vfTable(16)
+	copy(p, []byte{0x08, 'B', 'U', 'F', '0', 0x11})
+	menu := [20]byte{0, 1, 2, 3, 4, 5, 6, 7, 8, 9, 10, 11, 12, 13, 14, 15, 16, 17, 0x41, 0xff}
+	p[6] = menu[zzverif.Choice("L1", 20)]
+	p[7] = 0x11
+	p[8] = menu[zzverif.Choice("L2", 20)]
+	p[9] = 0x01
+	for i := 10; i < 16; i++ {
+		p[i] = 0
+	}
+	vfParse(h)
+}
+
+// A named object declared through a two-segment absolute path followed by a Scope directive, all eight name
+// bytes arbitrary (so either may or may not resolve): 08 5c 2e <SEG0> FOO0 00 | 10 05 <TGT0>.
+//verif:budget-is-violation
+//verif:depth 120
+func Verif_C12_tmpl_scope_resolution() {
+	h, p := vfTable(18)
+	copy(p, []byte{0x08, 0x5c, 0x2e})
+	copy(p[7:], []byte{'F', 'O', 'O', '0', 0x00, 0x10, 0x05})
+	for _, i := range []int{3, 4, 5, 6, 14, 15, 16, 17} {
+		c := p[i]
+		zzverif.Assume(zzverif.Or(c == '_', zzverif.And(c >= 'A', c <= 'Z')))
+	}
 	vfParse(h)
 }
